@@ -145,8 +145,9 @@ const (
 // ---------------------------------------------------------------- chain wrapper (network.BlockChain)
 
 type chainWrap struct {
-	r  *rig
-	bc *chain.BlockChain
+	r    *rig
+	bc   *chain.BlockChain
+	gate chan struct{} // probe only: when set, InsertBlock waits here after its begin event
 }
 
 func (c *chainWrap) Genesis() *types.Block { return c.bc.Genesis() }
@@ -174,6 +175,9 @@ func (c *chainWrap) InsertBlock(block *types.Block) error {
 	who := callerName()
 	h := block.Hash()
 	c.r.add(ev{kind: "InsertBlock.begin", caller: who, hash: h, height: block.Height()})
+	if g := c.gate; g != nil {
+		<-g
+	}
 	err := c.bc.InsertBlock(block)
 	e := ev{kind: "InsertBlock.end", caller: who, hash: h, height: block.Height(), ok: err == nil}
 	if err != nil {
